@@ -46,6 +46,9 @@ TOK_POST = [
      '((result[a].start == 0 or not material_char(input[result[a].start - 1])) and '
      '(result[a].start + result[a].length == len(input) or not material_char(input[result[a].start + result[a].length]))), '
      '0, len(result))'),
+    ('word-tokens-consist-of-word-characters-only',
+     'forall(lambda a, p: implies(result[a].start <= p and p < result[a].start + result[a].length and '
+     'not (result[a].length == 1 and sep_char(input[result[a].start])), material_char(input[p])), 0, len(result), 0, len(input))'),
 ]
 
 CONTRACTS = [
@@ -56,3 +59,4 @@ CONTRACTS = [
              ghost_after={'tokens.append(': 'own = fill(own, tokens[len(tokens) - 1].start, tokens[len(tokens) - 1].start + tokens[len(tokens) - 1].length, len(tokens) - 1)'},
              ensures=TOK_POST),
 ]
+CONTRACTS[-1].repair_strings = True
